@@ -359,6 +359,17 @@ fn main() {
             break;
         }
         base += 30_000;
+        // once per shard: more distinct resources than the soft cap (10 000) before the next ~480 cases;
+        // inbound traffic on late resources still counts for the system rules
+        if i == 15 {
+            VClock::set_ms(base - 20_000);
+            for k in 0..10_050u32 {
+                if let Ok(e) = EntryBuilder::new(format!("c09-flood-{}-{k}", opts.shard)).with_traffic_type(TrafficType::Outbound).build() {
+                    e.exit();
+                }
+            }
+            rep.count("resource_flood_nodes", 10_050);
+        }
         let case = gen_case(&mut rng, base);
         let r = common::catch(|| run_case(&case));
         match r {
